@@ -70,6 +70,8 @@ pub fn gen_plan(rng: &mut Rng) -> Plan {
         1 => (1 << rng.below(12)) | (1 << rng.below(24)),
         2 if rng.chance(1, 3) => 1 << BIT_PERMISSIVE,
         3 => 1 << BIT_NEAR_MISS,
+        // only tags of OTHER paths demoted (mutual close, sequencing): every commitment bound stays enforced
+        4 => (1 << (12 + rng.below(12))) | (1 << (12 + rng.below(12))),
         _ => 0,
     };
     let edge = |rng: &mut Rng, lo: u64, hi: u64| -> u64 {
